@@ -240,6 +240,31 @@ Hypothesis opsem_ext : forall n ivs c1 c2, Forall2 (fun a b => forall av, a av =
 Lemma opsemP_ext n ivs c1 c2 : Forall2 (fun a b => forall av, a av = b av) c1 c2 -> opsemP val dv opsem n ivs c1 = opsemP val dv opsem n ivs c2.
 Proof. destruct n; simpl; intros H; [now apply opsem_ext|reflexivity]. Qed.
 
+(* the meaning of the i-th output of a graph's result identity is the meaning of the i-th requested result Var *)
+Lemma meaning_intro rho g i r : inR p main (NIntro g) = true -> nth_error (greqP p g) i = Some r ->
+  meaning p main val dv opsem rho (V (NIntro g) i) = meaning p main val dv opsem rho r.
+Proof.
+  intros Hin Hr. unfold meaning. cbn [vnode].
+  assert (Hins : insP p main (NIntro g) = map (fun kv => Some (snd kv)) (gres (getg p g))) by (unfold insP; now rewrite Hin).
+  unfold greqP in Hr. rewrite nth_error_map in Hr. destruct (nth_error (gres (getg p g)) i) as [kv|] eqn:Ek; [|discriminate].
+  cbn in Hr. inversion Hr; subst r. clear Hr.
+  set (k := rankP p main (NIntro g)).
+  assert (E1 : eval val dv (is_argP p) (insP p main) (subsP p main) (gargsP p) (gresP p) (opsemP val dv opsem) (S k) rho (V (NIntro g) i) =
+               eval val dv (is_argP p) (insP p main) (subsP p main) (gargsP p) (gresP p) (opsemP val dv opsem) k rho (snd kv)).
+  { cbn [eval]. unfold is_argP at 1. cbn [is_arg]. rewrite Hins. cbn [opsemP]. rewrite !map_map. cbn [option_map].
+    rewrite (nth_indep _ dv (eval val dv (is_argP p) (insP p main) (subsP p main) (gargsP p) (gresP p) (opsemP val dv opsem) k rho (snd kv)))
+      by (rewrite map_length; apply nth_error_Some; congruence).
+    rewrite (map_nth (fun x : String.string * var => eval val dv (is_argP p) (insP p main) (subsP p main) (gargsP p) (gresP p) (opsemP val dv opsem) k rho (snd x))).
+    now rewrite (nth_error_nth _ _ _ Ek). }
+  rewrite E1. destruct (snd kv) as [n o] eqn:Esk.
+  apply (eval_irrel val dv (is_argP p) (insP p main) (subsP p main) (gargsP p) (gresP p) (opsemP val dv opsem) opsemP_ext (rankP p main)
+           (fun n0 x Ha Hx => match x as x0 return In (Some x0) (insP p main n0) -> rankv (rankP p main) x0 < rankP p main n0 with V m0 o0 => fun Hx0 => rank_insP n0 (V m0 o0) Ha Hx0 end Hx)
+           (fun n0 g0 r0 Ha Hg Hr0 => match r0 as r1 return In r1 (gresP p g0) -> rankv (rankP p main) r1 < rankP p main n0 with V m0 o0 => fun Hr1 => rank_subsP n0 g0 (V m0 o0) Ha Hg Hr1 end Hr0)).
+  - cbn [rankv]. change (rankP p main n) with (rankP p main (vnode (V n o))). apply rank_insP; [reflexivity|].
+    rewrite Hins. apply in_map_iff. exists kv. split; [now rewrite Esk|]. eapply nth_error_In; eauto.
+  - cbn [rankv vnode]. auto.
+Qed.
+
 (* Executing the emitted structure on the values of the main arguments yields, for each requested output, the meaning of the
    requested Var — for every operator semantics. *)
 Theorem plan_sem g : check_plan p main g = true -> forall av,
@@ -270,6 +295,17 @@ Theorem build_sem p r m inputs outputs :
 Proof.
   intros H Hi Ho p' val dv opsem Hext av. apply build_checked_inv in H. destruct H as [_ Hv].
   pose proof (plan_checked p r m inputs outputs Hi Ho Hv) as Hc. fold p' in Hc.
-  assert (Ha : acyclic_b p' 0 = true) by (unfold check_plan in Hc; apply andb_prop in Hc; tauto).
-  rewrite (plan_sem p' 0 Ha val dv opsem Hext (mmain m) Hc av). reflexivity.
+  assert (Ha : acyclic_b p' 0 = true) by (unfold check_plan in Hc; apply andb_prop in Hc; destruct Hc as [Hc _]; apply andb_prop in Hc; tauto).
+  rewrite (plan_sem p' 0 Ha val dv opsem Hext (mmain m) Hc av).
+  assert (Hin0 : inR p' 0 (NIntro 0) = true) by (unfold check_plan in Hc; apply andb_prop in Hc; destruct Hc as [Hc _]; apply andb_prop in Hc; tauto).
+  unfold gresP. rewrite map_map. change (gres (getg p' 0)) with outputs.
+  apply nth_ext with (d := dv) (d' := dv); [now rewrite !map_length, seq_length|].
+  intros i Hi'. rewrite map_length, seq_length in Hi'.
+  rewrite (nth_indep _ dv (meaning p' 0 val dv opsem (bindv val dv (main_args inputs) av) (V (NIntro 0) 0))) by (now rewrite map_length, seq_length).
+  rewrite (map_nth (fun x => meaning p' 0 val dv opsem (bindv val dv (main_args inputs) av) (V (NIntro 0) x))), seq_nth by assumption. cbn [Nat.add].
+  destruct (nth_error outputs i) as [kv|] eqn:Ek; [|apply nth_error_None in Ek; lia].
+  rewrite (meaning_intro p' 0 Ha val dv opsem Hext _ 0 i (snd kv) Hin0) by (unfold greqP; change (gres (getg p' 0)) with outputs; now rewrite nth_error_map, Ek).
+  symmetry. rewrite (nth_indep _ dv (meaning p' 0 val dv opsem (bindv val dv (main_args inputs) av) (snd kv))) by (now rewrite !map_length).
+  rewrite map_map. rewrite (map_nth (fun x : String.string * var => meaning p' 0 val dv opsem (bindv val dv (main_args inputs) av) (snd x))).
+  now rewrite (nth_error_nth _ _ _ Ek).
 Qed.
